@@ -145,7 +145,7 @@ def prune_build_cache(keep_hash_dirs, max_dirs=400):
     except OSError:
         return
     dirs = [d for d in dirs if os.path.isdir(d) and os.path.basename(d) not in keep_hash_dirs
-            and os.path.basename(d) != "tmp"]
+            and os.path.basename(d) not in ("tmp", "gen")]
     if len(dirs) <= max_dirs:
         return
     dirs.sort(key=lambda d: os.path.getmtime(d))
